@@ -21,19 +21,22 @@ MNext ==
   /\ \E w \in {Pick(1..21)}, a \in {Pick(Accts)}, c \in {Pick(Chains)}, pf \in {Pick(Proofs)} :
        \/ w <= 3 /\ \E cs \in {Pick((SUBSET Chains) \ {{}})}, v \in {Pick(Vers)} : RegisterEff(a, cs, v) /\ last' = [act |-> "Register", res |-> "ok", r |-> a, chains |-> SetToSeq(cs), v |-> v]
        (* the TSS account (re-)registered for the TSS chain; re-registrations of an account for the SAME chains with the other address *)
-       \/ w = 4 /\ \E v \in {Pick(Vers)} : RegisterEff(TssAcct, {TssChain}, v) /\ last' = [act |-> "Register", res |-> "ok", r |-> TssAcct, chains |-> <<TssChain>>, v |-> v]
+       \/ w = 4 /\ IF Pick(1..3) = 1
+                    THEN \E na \in {Pick(Accts \ {"out"})} : RotateEff(na) /\ last' = [act |-> "Rotate", res |-> "ok", to |-> na]
+                    ELSE \E v \in {Pick(Vers)} : RegisterEff(tssacct, {TssChain}, v) /\ last' = [act |-> "Register", res |-> "ok", r |-> tssacct, chains |-> <<TssChain>>, v |-> v]
        \/ w = 21 /\ reg[a] # {} /\ \E nv \in {IF ver[a] = 1 THEN 2 ELSE 1} : RegisterEff(a, reg[a], nv) /\ last' = [act |-> "Register", res |-> "ok", r |-> a, chains |-> SetToSeq(reg[a]), v |-> nv]
        \/ w \in {5, 6, 7} /\ UpdateEff(a, c) /\ last' = [act |-> "Update", res |-> Res(UpdateOK(a, c)), signer |-> a, chain |-> c]
-       \/ w \in {8, 9, 10} /\ \E aa \in {IF Pick(1..2) = 1 THEN TssAcct ELSE a}, cc \in {IF Pick(1..3) > 1 THEN TssChain ELSE c},
+       \/ w \in {8, 9, 10} /\ \E aa \in {IF Pick(1..2) = 1 THEN tssacct ELSE a}, cc \in {IF Pick(1..3) > 1 THEN TssChain ELSE c},
                                  m \in {IF Pick(1..2) = 1 THEN "none" ELSE IF Pick(1..4) = 1 THEN "malformed" ELSE Pick(Methods)} :
               \E s \in {IF Pick(1..4) = 1 THEN Pick(1..MaxSeq) ELSE 1 + Cardinality({x \in rcpt : x[1] = cc})} :
               s <= MaxSeq /\ RecvEff(aa, cc, s) /\ last' = [act |-> "Recv", res |-> Res(RecvOK(aa, cc, s)), signer |-> aa, chain |-> cc, seq |-> s, call |-> m, proof |-> pf]
        \/ w \in {11, 12} /\ Send
-       \/ w \in {13, 14, 15} /\ \E aa \in {IF Pick(1..2) = 1 THEN TssAcct ELSE a},
+       \/ w \in {13, 14, 15} /\ \E aa \in {IF Pick(1..2) = 1 THEN tssacct ELSE a},
                                     s \in {IF Unacked # {} /\ Pick(1..4) > 1 THEN Pick(Unacked) ELSE Pick(1..MaxSeq)},
                                     rel \in {IF Payable # {} /\ Pick(1..4) > 1 THEN Pick(Payable) ELSE Pick(Rels)} :
               AckEff(aa, s, rel) /\ last' = [act |-> "Ack", res |-> Res(AckOK(aa, s, rel)), signer |-> aa, seq |-> s, rel |-> rel, proof |-> pf]
-       \/ w \in 16..20 /\ \E p \in {Pick(Paths)}, m \in {Pick(Methods)} : Priv(p, m)
+       \/ w \in 16..19 /\ \E p \in {Pick(Paths)}, m \in {Pick(Methods)} : Priv(p, m)
+       \/ w = 20 /\ IF Pick(1..2) = 1 THEN Regenesis ELSE \E p \in {Pick(Paths)}, m \in {Pick(Methods)} : Priv(p, m)
   /\ hist' = Append(hist, last')
 MSpec == MInit /\ [][MNext]_<<vars, hist>>
 Emit == Len(hist) = Depth => PrintT(<<"MBT", ToJson(hist)>>)
